@@ -326,10 +326,17 @@ def run_workload(side, case, tmpdir, n):
     start = threading.Barrier(len(threads)) if case.get("barrier", True) else None
     errors = []
 
+    harness_trouble = []
+
     def writer(t):
+        # only what push() itself raises is the driver's; the start barrier is ours
+        if start is not None:
+            try:
+                start.wait()
+            except threading.BrokenBarrierError:
+                harness_trouble.append("barrier")
+                return
         try:
-            if start is not None:
-                start.wait(LIMIT)
             for m in msgs[t]:
                 conn.push(m)
         except Exception as e:  # noqa
@@ -343,6 +350,11 @@ def run_workload(side, case, tmpdir, n):
         th.join(max(0.0, deadline - time.monotonic()))
     if any(th.is_alive() for th in ths):
         out["status"] = "writers-stuck"
+        if start is not None:
+            start.abort()
+        return out
+    if harness_trouble:
+        out["status"] = "harness-" + harness_trouble[0]
         return out
     out["push_errors"] = errors
 
